@@ -85,11 +85,23 @@ def flags():
         short = True
     else:
         raise TranslateError("binaryOpNode::evaluate has an unrecognised shape")
+    esrc = open(os.path.join(REPO, "src/occa/internal/lang/expr/expressionParser.cpp")).read()
+    lu = body_of(esrc, r"bool\s+expressionParser::operatorIsLeftUnary\s*\([^)]*\)\s*\{", "operatorIsLeftUnary")
+    # C15's N3: a value followed by + - * & is binary even when a unary operator follows
+    unary_fixed = bool(re.search(r"if\s*\(\s*!onlyUnary\s*\)\s*\{\s*if\s*\(\s*!\(state\.prevToken->type\(\)\s*&\s*tokenType::op\)\)\s*\{\s*return\s+false;", lu))
+    if not unary_fixed and "prevTokenIsOp != nextTokenIsOp" not in lu:
+        raise TranslateError("operatorIsLeftUnary has an unrecognised shape")
+    af = body_of(esrc, r"void\s+expressionParser::applyFasterOperators\s*\([^)]*\)\s*\{", "applyFasterOperators")
+    # C15's N5: `?` does not pop a pending `?`/`:` and `:` is applied up to its `?`
+    tern_fixed = "operatorType::questionMark" in af and "operatorType::colon" in af
+    if not tern_fixed and "questionMark" in af:
+        raise TranslateError("applyFasterOperators mentions questionMark in an unrecognised way")
     msrc = open(os.path.join(REPO, "src/occa/internal/lang/macro.cpp")).read()
     ma = body_of(msrc, r"bool\s+macroArgument::expand\s*\([^)]*\)\s*\{", "macroArgument::expand")
     commas = "op::comma" in ma
     return dict(vals, elifChecksStateFirst=first, lineIsTruePushes=pushes, intmaxLiterals=intmax,
-                shortCircuit=short, vaArgsKeepCommas=commas)
+                shortCircuit=short, vaArgsKeepCommas=commas,
+                unaryAfterBinaryFixed=unary_fixed, nestedTernaryFixed=tern_fixed)
 
 
 def precedences():
@@ -140,6 +152,10 @@ def gen():
             "def shortCircuit : Bool := %s" % lb(fl["shortCircuit"]),
             "/-- __VA_ARGS__ keeps the commas between the variable arguments (F61 repaired) -/",
             "def vaArgsKeepCommas : Bool := %s" % lb(fl["vaArgsKeepCommas"]),
+            "/-- expressionParser: a binary + - * & before a unary operator is parsed as binary (C15's N3 repaired) -/",
+            "def unaryAfterBinaryFixed : Bool := %s" % lb(fl["unaryAfterBinaryFixed"]),
+            "/-- expressionParser: nested ?: groups right-to-left (C15's N5 repaired) -/",
+            "def nestedTernaryFixed : Bool := %s" % lb(fl["nestedTernaryFixed"]),
             "",
             "/-- (spelling, precedence) of the binary operators usable in #if; smaller binds tighter -/",
             "def binPrec : List (String × Nat) := [%s]" % ", ".join('("%s", %d)' % (sp, prec[("binaryOperator_t", sp)]) for sp in BINOPS),
